@@ -408,3 +408,236 @@ Proof.
   - eapply pres_cause; eauto.
 Qed.
 
+
+
+(* ---------- the trace invariant ---------- *)
+
+(* every occurrence of b in the trace has a past that satisfies P *)
+Definition each_occ (b : event) (P : list event -> Prop) (tr : list event) : Prop :=
+  forall l1 l2, tr = l1 ++ b :: l2 -> P l2.
+
+Lemma each_occ_nil : forall b P, each_occ b P [].
+Proof. intros b P l1 l2 H. destruct l1; discriminate H. Qed.
+
+Lemma each_occ_cons : forall b P tr e, each_occ b P tr -> (e = b -> P tr) -> each_occ b P (e :: tr).
+Proof.
+  intros b P tr e H He l1 l2 E. destruct l1 as [|x l1]; simpl in E; inversion E; subst.
+  - apply He. reflexivity.
+  - eapply H. reflexivity.
+Qed.
+
+Lemma precedes_is : forall a b tr, precedes a b tr <-> each_occ b (In a) tr.
+Proof. intros. unfold precedes, each_occ. tauto. Qed.
+
+Lemma never_before_is : forall b a tr, never_before b a tr <-> each_occ a (fun l => ~ In b l) tr.
+Proof. intros. unfold never_before, each_occ. tauto. Qed.
+
+Lemma in_cons_neq : forall (x e : event) tr, e <> x -> (In x (e :: tr) <-> In x tr).
+Proof. intros x e tr N. simpl. split; [intros [E|H]; [contradiction|assumption] | auto]. Qed.
+
+Record TInv (sc : script) (s : st) (tr : list event) : Prop := mkTInv {
+  t_enter : match s_once s with
+            | ONew => filter is_enter tr = []
+            | ORun j => filter is_enter tr = [EvEnter j]
+            | ODone => exists j, filter is_enter tr = [EvEnter j]
+            end;
+  t_write : match s_err s with
+            | None => filter is_write tr = []
+            | Some e => exists j, filter is_write tr = [EvWrite j e] /\ filter is_enter tr = [EvEnter j] /\
+                                  g_ret (s_g s j) = Some (Some e)
+            end;
+  t_done : forall i, In (EvDone i) tr <-> is_exit (s_g s i) = true;
+  t_pass : In EvWaitPass tr <-> passed_wait (s_c s) = true;
+  t_read : forall e, is_read e = true -> In e tr -> passed_wait (s_c s) = true;
+  t_ret : forall i r, In (EvRet i r) tr <-> g_ret (s_g s i) = Some r;
+  t_ext : In EvExt tr -> s_ctx s <> None;
+  t_parent : s_ctx s = Some CParent -> In EvExt tr;
+  o_done_pass : forall i, i < length sc -> precedes (EvDone i) EvWaitPass tr;
+  o_pass_read : forall e, is_read e = true -> precedes EvWaitPass e tr;
+  o_write_done : forall i e, never_before (EvDone i) (EvWrite i e) tr;
+  o_write_read : forall i e r, is_read r = true -> never_before r (EvWrite i e) tr;
+  o_ret_done : forall i, each_occ (EvDone i) (fun l => exists r, In (EvRet i r) l) tr;
+  o_cancel : forall i v, each_occ (EvCancel i v) (fun l => exists e, v = Some e /\ In (EvRet i (Some e)) l) tr
+}.
+
+Lemma tinv_init : forall sc, TInv sc (init sc) [].
+Proof.
+  intros sc. constructor; simpl; auto; try (intros; apply each_occ_nil); try discriminate; try tauto.
+  - split; [tauto|discriminate].
+  - rewrite next_c_not_passed. split; [tauto|discriminate].
+  - split; [tauto|discriminate].
+Qed.
+
+Section Pres.
+  Variables (sc : script) (s : st) (tr : list event) (t : tid) (e : event) (s' : st).
+  Hypothesis (I : SInv sc s) (T : TInv sc s tr) (H : act sc s t = Some (e, s')).
+
+  Lemma tpres_enter :
+    match s_once s' with
+    | ONew => filter is_enter (e :: tr) = []
+    | ORun j => filter is_enter (e :: tr) = [EvEnter j]
+    | ODone => exists j, filter is_enter (e :: tr) = [EvEnter j]
+    end.
+  Proof.
+    pose proof (t_enter sc s tr T) as R. clear T.
+    act_inv H; simpl; auto.
+    - rewrite R. reflexivity.
+    - pose proof (i_body_once sc s I i) as Ri. rewrite Heqg in Ri. rewrite (Ri eq_refl) in R. eauto.
+  Qed.
+
+  Lemma tpres_write :
+    match s_err s' with
+    | None => filter is_write (e :: tr) = []
+    | Some x => exists j, filter is_write (e :: tr) = [EvWrite j x] /\ filter is_enter (e :: tr) = [EvEnter j] /\
+                          g_ret (s_g s' j) = Some (Some x)
+    end.
+  Proof.
+    pose proof (t_write sc s tr T) as R. pose proof (t_enter sc s tr T) as RE. clear T.
+    act_inv H; simpl; auto.
+    2: { destruct (i_once_new sc s I Heqo) as [En _]. rewrite En in *. exact R. }
+    3: { pose proof (i_body_once sc s I i) as Ri. rewrite Heqg in Ri. specialize (Ri eq_refl).
+         pose proof (i_err_run sc s I i Ri) as Re. rewrite Heqg in Re. rewrite Re in R. rewrite Ri in RE.
+         exists i. rewrite R, gupd_same. auto. }
+    all: destruct (s_err s) eqn:Es; [|exact R]; destruct R as (j & W & En & G); exists j; repeat split; auto.
+    1: { gcase j i; [|exact G]. rewrite (sinv_unspawned sc s I i) in G; [discriminate G|]. rewrite Heqc. simpl. lia. }
+    all: gcase j i; [rewrite Heqg in G; try discriminate G; try exact G | exact G].
+    exfalso. assert (0 < s_cnt s); [|lia]. apply (sinv_cnt_pos sc s I i); rewrite Heqg; [discriminate|reflexivity].
+  Qed.
+
+  Lemma tpres_done : forall i, In (EvDone i) (e :: tr) <-> is_exit (s_g s' i) = true.
+  Proof.
+    intros j. pose proof (t_done sc s tr T j) as R. clear T.
+    act_inv H; simpl s_g; try (rewrite in_cons_neq by discriminate); auto.
+    1: { gcase j i; [|exact R]. rewrite (sinv_unspawned sc s I i) in R; [exact R|]. rewrite Heqc. simpl. lia. }
+    all: gcase j i; [rewrite Heqg in R; simpl in *; try exact R | try exact R].
+    - split; auto.
+    - rewrite in_cons_neq; [exact R|congruence].
+    - destruct (after_f_not (w_res w)) as (_ & _ & _ & _ & X & _). rewrite X. exact R.
+  Qed.
+
+  Lemma tpres_pass : In EvWaitPass (e :: tr) <-> passed_wait (s_c s') = true.
+  Proof.
+    pose proof (t_pass sc s tr T) as R. clear T.
+    act_inv H; simpl s_c; try (rewrite in_cons_neq by discriminate); auto.
+    - rewrite next_c_not_passed. simpl in R. exact R.
+    - simpl. split; auto.
+  Qed.
+
+  Lemma tpres_read : forall x, is_read x = true -> In x (e :: tr) -> passed_wait (s_c s') = true.
+  Proof.
+    intros x X. pose proof (t_read sc s tr T x X) as R. clear T.
+    act_inv H; simpl s_c; intros [E|Hin]; try (subst x; discriminate X); auto.
+    discriminate (R Hin).
+  Qed.
+
+  Lemma tpres_ret : forall i r, In (EvRet i r) (e :: tr) <-> g_ret (s_g s' i) = Some r.
+  Proof.
+    intros j r. pose proof (t_ret sc s tr T j r) as R. clear T.
+    act_inv H; simpl s_g; try (rewrite in_cons_neq by discriminate); auto.
+    1: { gcase j i; [|exact R]. rewrite (sinv_unspawned sc s I i) in R; [exact R|]. rewrite Heqc. simpl. lia. }
+    all: gcase j i; [rewrite Heqg in R; simpl in *; try exact R | try exact R].
+    - exfalso. assert (0 < s_cnt s); [|lia]. apply (sinv_cnt_pos sc s I i); rewrite Heqg; [discriminate|reflexivity].
+    - destruct (after_f_not (w_res w)) as (_ & _ & _ & _ & _ & X). rewrite X. split.
+      + intros [E|Hin]; [inversion E; reflexivity | apply R in Hin; discriminate Hin].
+      + intros E. inversion E. auto.
+    - rewrite in_cons_neq; [exact R|congruence].
+  Qed.
+
+  Lemma tpres_ext : In EvExt (e :: tr) -> s_ctx s' <> None.
+  Proof.
+    pose proof (t_ext sc s tr T) as R. clear T.
+    act_inv H; simpl s_ctx; try (rewrite in_cons_neq by discriminate); auto using do_cancel_some.
+    discriminate.
+  Qed.
+
+  Lemma tpres_parent : s_ctx s' = Some CParent -> In EvExt (e :: tr).
+  Proof.
+    pose proof (t_parent sc s tr T) as R. clear T.
+    act_inv H; simpl s_ctx; try (rewrite in_cons_neq by discriminate); auto.
+    - destruct (s_ctx s); simpl; auto. destruct (s_err s); simpl; discriminate.
+    - destruct (s_ctx s); simpl; auto. destruct (s_err s); simpl; discriminate.
+    - intros _. left. reflexivity.
+  Qed.
+
+  Lemma opres_done_pass : forall i, i < length sc -> precedes (EvDone i) EvWaitPass (e :: tr).
+  Proof.
+    intros j Hj. pose proof (o_done_pass sc s tr T j Hj) as R. apply precedes_is. apply precedes_is in R.
+    apply each_occ_cons; [exact R|]. pose proof (t_done sc s tr T j) as D. clear T R.
+    act_inv H; try discriminate. intros _. apply D.
+    apply Nat.eqb_eq in Heqb. pose proof (i_count sc s I) as K. rewrite Heqc in K. simpl in K.
+    apply (cnt_exit_full (s_g s) (length sc)); [lia|assumption].
+  Qed.
+
+  Lemma opres_pass_read : forall x, is_read x = true -> precedes EvWaitPass x (e :: tr).
+  Proof.
+    intros x X. pose proof (o_pass_read sc s tr T x X) as R. apply precedes_is. apply precedes_is in R.
+    apply each_occ_cons; [exact R|]. pose proof (t_pass sc s tr T) as D. clear T R.
+    act_inv H; intros E; try (subst x; discriminate X); apply D; reflexivity.
+  Qed.
+
+  Lemma opres_write_done : forall i x, never_before (EvDone i) (EvWrite i x) (e :: tr).
+  Proof.
+    intros j x. pose proof (o_write_done sc s tr T j x) as R. apply never_before_is. apply never_before_is in R.
+    apply each_occ_cons; [exact R|]. pose proof (t_done sc s tr T j) as D. clear T R.
+    act_inv H; try discriminate. intros E. inversion E; subst. rewrite D, Heqg. discriminate.
+  Qed.
+
+  Lemma opres_write_read : forall i x r, is_read r = true -> never_before r (EvWrite i x) (e :: tr).
+  Proof.
+    intros j x r X. pose proof (o_write_read sc s tr T j x r X) as R. apply never_before_is. apply never_before_is in R.
+    apply each_occ_cons; [exact R|]. pose proof (t_read sc s tr T r X) as D. clear T R.
+    act_inv H; try discriminate. intros E. inversion E; subst. intros Hin. specialize (D Hin). quiet I D j.
+  Qed.
+
+  Lemma opres_ret_done : forall i, each_occ (EvDone i) (fun l => exists r, In (EvRet i r) l) (e :: tr).
+  Proof.
+    intros j. pose proof (o_ret_done sc s tr T j) as R.
+    apply each_occ_cons; [exact R|]. pose proof (t_ret sc s tr T j) as D. clear T R.
+    act_inv H; try discriminate. intros E. inversion E; subst. exists r. apply D. rewrite Heqg. reflexivity.
+  Qed.
+
+  Lemma opres_cancel : forall i v, each_occ (EvCancel i v) (fun l => exists x, v = Some x /\ In (EvRet i (Some x)) l) (e :: tr).
+  Proof.
+    intros j v. pose proof (o_cancel sc s tr T j v) as R.
+    apply each_occ_cons; [exact R|]. pose proof (t_ret sc s tr T j) as D. clear T R.
+    act_inv H; try discriminate. intros E. inversion E; subst.
+    pose proof (i_body_once sc s I j) as Ri. rewrite Heqg in Ri. pose proof (i_err_run sc s I j (Ri eq_refl)) as Re.
+    rewrite Heqg in Re. exists e0. split; [exact Re|]. apply D. rewrite Heqg. reflexivity.
+  Qed.
+
+  Lemma tinv_act : TInv sc s' (e :: tr).
+  Proof.
+    constructor.
+    - apply tpres_enter.
+    - apply tpres_write.
+    - apply tpres_done.
+    - apply tpres_pass.
+    - apply tpres_read.
+    - apply tpres_ret.
+    - apply tpres_ext.
+    - apply tpres_parent.
+    - apply opres_done_pass.
+    - apply opres_pass_read.
+    - apply opres_write_done.
+    - apply opres_write_read.
+    - apply opres_ret_done.
+    - apply opres_cancel.
+  Qed.
+End Pres.
+
+(* ---------- every execution satisfies both invariants ---------- *)
+
+Definition Inv (sc : script) (c : cfg) : Prop := SInv sc (fst c) /\ TInv sc (fst c) (snd c).
+
+Lemma inv_step : forall sc c t, Inv sc c -> Inv sc (step sc c t).
+Proof.
+  intros sc [s tr] t [I T]. unfold step. simpl fst. simpl snd. destruct (act sc s t) as [[e s']|] eqn:A.
+  - split; simpl; [eapply sinv_step; eauto | eapply tinv_act; eauto].
+  - split; assumption.
+Qed.
+
+Lemma inv_run : forall sc sched c, Inv sc c -> Inv sc (run sc c sched).
+Proof. induction sched as [|t l IH]; intros c HI; [exact HI|]. rewrite run_cons. apply IH. apply inv_step. exact HI. Qed.
+
+Lemma inv_exec : forall sc sched, Inv sc (exec sc sched).
+Proof. intros. apply inv_run. split; [apply sinv_init | apply tinv_init]. Qed.
